@@ -697,11 +697,12 @@ func c20Run(tier string, seed int64, idx int) *core.Result {
 
 func init() {
 	core.Register(&core.Prop{
-		ID:    "C20",
-		Level: "exploration",
-		Rule:  "one RPC per case over the cross product server interceptor chain length 1..6 (ChainUnary/ChainStreamInterceptor, and the single-interceptor options for length 1) x client interceptor {none, one} x 1..3 stats handlers per side x 4 RPC kinds x 9 outcomes {ok, handler error, handler failing with io.EOF, cancel, cancel while a response sits uncollected in the read loop, manual deadline, transport failure, open failing in the transport write, call on a connection whose read already failed} (quick: a fixed third of the middle chain lengths). Every interceptor records enter/exit and edits context metadata, request, reply and error; every stats handler tags the context with a fresh token. Plus connection-level cases: one ConnBegin/ConnEnd per served connection when it ends by Stop / write failure / read failure while idle, while all 8 unary workers are busy with more requests pending, and while a stream whose handler does not read has a full queue. All cases are distinct tuples and non-trivial.",
-		Plan:  func(tier string, seed int64) int { return len(c20List(tier)) },
-		Run:   c20Run,
+		ID:             "C20",
+		Level:          "exploration",
+		Rule:           "one RPC per case over the cross product server interceptor chain length 1..6 (ChainUnary/ChainStreamInterceptor, and the single-interceptor options for length 1) x client interceptor {none, one} x 1..3 stats handlers per side x 4 RPC kinds x 9 outcomes {ok, handler error, handler failing with io.EOF, cancel, cancel while a response sits uncollected in the read loop, manual deadline, transport failure, open failing in the transport write, call on a connection whose read already failed} (quick: a fixed third of the middle chain lengths). Every interceptor records enter/exit and edits context metadata, request, reply and error; every stats handler tags the context with a fresh token. Plus connection-level cases: one ConnBegin/ConnEnd per served connection when it ends by Stop / write failure / read failure while idle, while all 8 unary workers are busy with more requests pending, and while a stream whose handler does not read has a full queue. All cases are distinct tuples and non-trivial.",
+		Plan:           func(tier string, seed int64) int { return len(c20List(tier)) },
+		ThoroughRounds: 8,
+		Run:            c20Run,
 		RequiredStats: func(string) []string {
 			return []string{"rpcs", "stats_handler_rpc_views_checked", "conn_end_scenarios"}
 		},
